@@ -2,6 +2,7 @@ package main
 
 import (
 	"net"
+	"strings"
 	"sync"
 	"sync/atomic"
 
@@ -18,6 +19,7 @@ type fakeClient struct {
 	g        *group.Group
 	username string
 	perms    []string
+	told     []string // ids this client was told about with 'add'
 
 	pushed atomic.Int64
 	joined atomic.Int64
@@ -65,6 +67,11 @@ func (c *fakeClient) Joined(group, kind string) error {
 }
 func (c *fakeClient) PushClient(group, kind, id, username string, perms []string, data map[string]interface{}) error {
 	c.pushed.Add(1)
+	if kind == "add" {
+		c.mu.Lock()
+		c.told = append(c.told, id)
+		c.mu.Unlock()
+	}
 	if c.onPush != nil {
 		c.onPush(kind, id)
 	}
@@ -76,4 +83,17 @@ func (c *fakeClient) Kick(id string, user *string, message string) error {
 		c.onKick(c)
 	}
 	return nil
+}
+
+// toldAnOperator reports whether one of the members this client was told about when it
+// joined is an operator (harness ids of operators contain "-op-").
+func (c *fakeClient) toldAnOperator() bool {
+	c.mu.Lock()
+	defer c.mu.Unlock()
+	for _, id := range c.told {
+		if id != c.id && strings.Contains(id, "-op-") {
+			return true
+		}
+	}
+	return false
 }
